@@ -615,13 +615,23 @@ func (c *FnCtx) callFunc(st *State, call *ast.CallExpr, fn *types.Func, recv *Va
 		// interface method: try "<pkg>.<Iface>.<m>" already; else fall back
 		return c.callNoContract(st, call, fn, recv, args, key)
 	}
-	if con.Flags["inline"] && c.inlining[key] >= 2 {
+	inlineHere := con.Flags["inline"]
+	for f := range con.Flags {
+		if strings.HasPrefix(f, "inline-in:") {
+			for _, k := range strings.Split(f[len("inline-in:"):], ",") {
+				if k = strings.TrimSpace(k); k != "" && (c.key == k || shortKey(c.key) == k) {
+					inlineHere = true
+				}
+			}
+		}
+	}
+	if inlineHere && c.inlining[key] >= 2 {
 		// recursion: beyond two nested activations the callee is replaced by its inferred effects
 		if ef := c.V.effects[key]; ef != nil {
 			return c.callByEffects(st, call, fn, recv, args, key, ef)
 		}
 	}
-	if con.Flags["inline"] {
+	if inlineHere {
 		if fd := c.V.funcs[key]; fd != nil && c.V.funcPkg[key] == c.pkg && fd.Body != nil {
 			c.inlining[key]++
 			defer func() { c.inlining[key]-- }()
@@ -766,7 +776,29 @@ func (c *FnCtx) callFunc(st *State, call *ast.CallExpr, fn *types.Func, recv *Va
 		if recvExpr != nil && len(names) > 0 && names[0] == mn && sig.Recv() != nil {
 			c.assignTo(st, recvExpr, nv)
 		} else {
-			c.warn("mutates %s at %s: no assignable location", mn, c.pos(call))
+			// a slice parameter written by the callee (io.Reader.Read(p)): assign the new content to the argument
+			assigned := false
+			off := 0
+			if sig.Recv() != nil {
+				off = 1
+			}
+			for i, n := range names {
+				if n != mn || i-off < 0 || i-off >= len(call.Args) {
+					continue
+				}
+				ae := call.Args[i-off]
+				if se, ok := ae.(*ast.SliceExpr); ok && se.Low == nil && se.High == nil {
+					ae = se.X
+				}
+				switch ae.(type) {
+				case *ast.Ident, *ast.SelectorExpr:
+					c.assignTo(st, ae, nv)
+					assigned = true
+				}
+			}
+			if !assigned {
+				c.warn("mutates %s at %s: no assignable location", mn, c.pos(call))
+			}
 		}
 	}
 	// results
